@@ -1,7 +1,8 @@
 // F-REAL / payouts harness (C14): the REAL DefaultPopRewardsCalculator::getPopPayout on the real three-tree system.
-// ALT chain 1..5, payout delay 3: the tip (height 4) pays the block E at height 2.  E is endorsed by two ATVs with symbolic
+// ALT chain 1..6, payout delay 3: the tip (height 5) pays the block E at height 3 (ALT 4).  E is endorsed by two ATVs with symbolic
 // containing ALT block, symbolic VBK block of proof (three heights on the VBK best chain or a block of a LOSING VBK fork) and
-// symbolic miner; the block before E may be endorsed too (it feeds the difficulty average).  The payout map must equal an
+// symbolic miner; the two blocks before E feed the difficulty average: ALT 3 is endorsed once or not at all, ALT 2 three times or not
+// at all (an un-endorsed block may sit between E and a heavily endorsed one).  The payout map must equal an
 // independent specification of WHO is paid for WHAT: only endorsements whose block of proof is on the VBK best chain count, the
 // best publication is the lowest such height, weights come from the relative-height table, the difficulty is the averaged score
 // of the preceding blocks (minimum 1), amounts of the same miner accumulate.  The arithmetic kernels (calculateBlockReward /
@@ -18,39 +19,41 @@ extern "C" __attribute__((noinline)) void h_payout() {
   for (int v = 1; v <= 5; v++) mineVbk(w, (uint8_t)v);
   mineVbk(w, 3); mineVbk(w, 7);
   const int NB = 4; const uint8_t bopId[NB] = {2, 4, 6, 7}; const int bopH[NB] = {1, 3, 5, 3}; const bool bopBest[NB] = {true, true, true, false};
-  for (uint8_t a = 2; a <= 5; a++) addAltHeader(w, a, (uint8_t)(a - 1));
+  for (uint8_t a = 2; a <= 6; a++) addAltHeader(w, a, (uint8_t)(a - 1));
   struct E { int containing, bop, miner; } e[2];
-  PopData pd[6];
+  PopData pd[7];
   for (int v = 2; v <= 8; v++) pd[2].context.push_back(w.vbkById[v]);          // all VBK blocks arrive with ALT 2
-  int prevBop = (int)verif_choice(0, 2);                                         // endorsement of ALT 2 (the block before E), carried by ALT 3: none / VBK 2 / VBK 6
-  if (prevBop) { ATV a = makeATV(w, 2, 2, prevBop == 1 ? 2 : 6, 9); pd[3].atvs.push_back(a); }
+  bool end3 = verif_cbool(), end2 = verif_cbool();                               // ALT 3 endorsed once (score 1) / ALT 2 endorsed three times at the same VBK height (score 3)
+  if (end3) pd[4].atvs.push_back(makeATV(w, 3, 3, 6, 9));
+  if (end2) for (uint8_t k = 0; k < 3; k++) pd[3].atvs.push_back(makeATV(w, 2, 2, 2, (uint8_t)(20 + k)));
   for (int k = 0; k < 2; k++) {
-    e[k].containing = (int)verif_choice(4, 5); e[k].bop = (int)verif_choice(0, NB - 1); e[k].miner = (int)verif_choice(0, 1);
-    ATV a = makeATV(w, 3, 3, bopId[e[k].bop], (uint8_t)(k + 1));
+    e[k].containing = 5 + k; e[k].bop = (int)verif_choice(0, NB - 1); e[k].miner = (int)verif_choice(0, 1);
+    ATV a = makeATV(w, 4, 4, bopId[e[k].bop], (uint8_t)(k + 1));
     a.transaction.publicationData.payoutInfo = std::vector<uint8_t>{(uint8_t)(0xA0 + e[k].miner)};
     pd[e[k].containing].atvs.push_back(a);
   }
-  for (uint8_t a = 5; a >= 2; a--) t.acceptBlock(altHash(a), pd[a]);
+  for (uint8_t a = 6; a >= 2; a--) t.acceptBlock(altHash(a), pd[a]);
   ValidationState st;
-  verif_check(t.setState(altHash(5), st), 1);                                    // every endorsement follows the rules
+  verif_check(t.setState(altHash(6), st), 1);                                    // every endorsement follows the rules
   verif_check(t.vbk().getBestChain().tip()->getHash() == w.vbkById[6].getHash(), 2);
   auto& calc = *new DefaultPopRewardsCalculator(t);
   PopPayouts got;
   ValidationState ps;
-  verif_check(calc.getPopPayout(altHash(5), got, ps), 3);
+  verif_check(calc.getPopPayout(altHash(6), got, ps), 3);
   // ---- specification
   int best = -1;
   for (int k = 0; k < 2; k++) if (bopBest[e[k].bop] && (best < 0 || bopH[e[k].bop] < best)) best = bopH[e[k].bop];
   PopRewardsBigDecimal score = 0.0;
   for (int k = 0; k < 2; k++) if (bopBest[e[k].bop]) score += PopRewardsBigDecimal(pp.mLookupTable[bopH[e[k].bop] - best]);
-  // difficulty: the two blocks before E are ALT 2 (score 1 when endorsed: a single endorsement is its own best publication) and ALT 1 (never endorsed)
+  // difficulty: average of the scores of the two blocks before E (ALT 3: 0 or 1, ALT 2: 0 or 3 - three endorsements at the same VBK height weigh 1 each), at least 1
   PopRewardsBigDecimal diff = 0.0;
-  if (prevBop) diff += PopRewardsBigDecimal(1.0);
+  if (end3) diff += PopRewardsBigDecimal(1.0);
+  if (end2) { diff += PopRewardsBigDecimal(1.0); diff += PopRewardsBigDecimal(1.0); diff += PopRewardsBigDecimal(1.0); }
   diff /= (uint64_t)2;
   if (diff < 1.0) diff = 1.0;
   uint64_t want[2] = {0, 0};
   if (best >= 0) {
-    PopRewardsBigDecimal blockReward = calc.calculateBlockReward(2, score, diff);
+    PopRewardsBigDecimal blockReward = calc.calculateBlockReward(3, score, diff);
     for (int k = 0; k < 2; k++) if (bopBest[e[k].bop]) want[e[k].miner] += calc.calculateMinerReward((uint32_t)(bopH[e[k].bop] - best), score, blockReward).value.getLow64();
   }
   size_t paid = 0;
@@ -64,5 +67,6 @@ extern "C" __attribute__((noinline)) void h_payout() {
   if (best < 0) verif_cover(1);
   if (best >= 0 && (!bopBest[e[0].bop] || !bopBest[e[1].bop])) verif_cover(2);   // one endorsement sits on the losing VBK fork
   if (bopBest[e[0].bop] && bopBest[e[1].bop] && bopH[e[0].bop] != bopH[e[1].bop] && e[0].miner == e[1].miner) verif_cover(3);
+  if (end2 && !end3) verif_cover(4);                                             // an un-endorsed block between E and the heavily endorsed one, average above 1
   verif_observe(want[0]); verif_observe(want[1]);
 }
